@@ -46,6 +46,7 @@ from phonopy.structure.atoms import PhonopyAtoms
 def parse_set_of_forces(num_atoms, forces_filenames, verbose=True):
     """Parse forces from output files."""
     # Filenames = subdirectories supercell-001, supercell-002, ...
+    is_parsed = True
     force_sets = []
     for i, filename in enumerate(forces_filenames):
         if verbose:
@@ -70,7 +71,6 @@ def parse_set_of_forces(num_atoms, forces_filenames, verbose=True):
         turbomole_forces = np.negative(turbomole_forces)
 
         if check_forces(turbomole_forces, num_atoms, filename, verbose=verbose):
-            is_parsed = True
             drift_force = get_drift_forces(
                 turbomole_forces, filename=filename, verbose=verbose
             )
